@@ -117,13 +117,39 @@ func verifyUnit(l *Loader, pkgPath, key string) (res *UnitResult) {
 			env2.vars[k] = v
 		}
 		bindResults(env2, c, fn, rv)
+		// live return sites
+		var live []int
+		for i, e := range ex.TopRets {
+			if !e.cond.IsFalse() {
+				live = append(live, i)
+			}
+		}
 		for i, cl := range c.Ensures {
-			t := env2.evalBool(cl)
 			kind := "post"
 			if c.Lemma {
 				kind = "lemma"
 			}
+			t := env2.evalBool(cl)
+			n0 := len(ex.Obls)
 			fxp.oblige(fmt.Sprintf("%s.%d", kind, i+1), kind, out, t, fn.Pos(), cl.Src)
+			if len(live) > 1 && len(ex.Obls) > n0 && !c.Lemma {
+				// check the clause at every return site separately (smaller, more stable queries);
+				// the named obligation holds iff all parts hold
+				parent := ex.Obls[len(ex.Obls)-1]
+				for _, ri := range live {
+					rs := ex.TopRets[ri].st.clone()
+					rs.Reach = ex.TopRets[ri].cond
+					envr := &SpecEnv{ex: ex, fx: fxp, st: rs, old: entry, vars: map[string]Val{}, fn: fn}
+					for k, v := range env.vars {
+						envr.vars[k] = v
+					}
+					bindResults(envr, c, fn, ex.TopRetVals[ri])
+					tr := envr.evalBool(cl)
+					sub := &Obl{Name: fmt.Sprintf("%s@ret%d", parent.Name, ri+1), Kind: kind, Unit: ex.Unit, Assume: parent.Assume, Reach: rs.Reach, Goal: tr,
+						Pos: parent.Pos, Src: cl.Src, Bounded: ex.Bounded, Inputs: ex.Inputs, Trivial: tr.IsTrue()}
+					parent.Subs = append(parent.Subs, sub)
+				}
+			}
 		}
 		if !c.Lemma && !c.NoFrame && len(c.Ensures)+len(c.Modifies) > 0 {
 			frameObligations(ex, fxp, entry, out, locs)
